@@ -7,7 +7,7 @@
 From Coq Require Import List NArith Bool.
 From Coq Require Import Strings.Byte.
 From GoBT Require Import lib.Bytes lib.VarInt lib.Sha256 model.Tx spec.DigestSpec model.SigHash
-  model.SigHashWire proofs.SigHashProofs proofs.AuditASigHash.
+  model.SigHashWire proofs.SigHashProofs proofs.AuditASigHash model.SigHeap proofs.SigHeapProofs.
 Import ListNotations.
 Local Open Scope N_scope. Local Open Scope bool_scope.
 
@@ -62,11 +62,13 @@ Theorem C02_forkid_sighash_is_spec : forall t i ht inp sc,
 Proof. exact forkid_sighash_is_spec. Qed.
 Print Assumptions C02_forkid_sighash_is_spec.
 
-(** computing the preimage / the hash leaves the transaction unchanged
-    (holds by construction of the model: every branch returns the transaction it was given, and values of the
-    model are immutable, so no model of this shape could say otherwise; the clause - no write through the
-    pointers the Go code holds, no stale memo - is carried by the correspondence, which compares the real object
-    before and after and re-hashes after in-place edits) *)
+(** computing the preimage / the hash leaves the transaction unchanged.
+    At the VALUE level (the next two statements) this holds by construction: every branch returns the transaction
+    it was given and values are immutable; they are kept because the correspondence compares this component with
+    the caller's real object before and after every call (and re-hashes after in-place edits: no stale memo).
+    The pointer-level statement - on a machine with stores, CalcInputPreimage performs none - is
+    C02_forkid_never_writes_callers_cells below (model/SigHeap.v); the function that DOES store into a clone,
+    and for which the statement can fail, is the legacy one: Properties/C03.v. *)
 Theorem C02_forkid_leaves_tx_unchanged : forall t i ht, snd (calc_input_preimage t i ht) = t.
 Proof. exact forkid_leaves_tx_unchanged. Qed.
 Print Assumptions C02_forkid_leaves_tx_unchanged.
@@ -74,6 +76,21 @@ Theorem C02_sighash_leaves_tx_unchanged : forall t i ht, has_forkid ht = true ->
   snd (calc_input_signature_hash t i ht) = t.
 Proof. exact sighash_leaves_tx_unchanged_forkid. Qed.
 Print Assumptions C02_sighash_leaves_tx_unchanged.
+
+(** POINTER LEVEL (model/SigHeap.v).  CalcInputPreimage holds no clone and contains no store: on the heap
+    machine it is transcribed with its reads only, so whatever the heap, pointer, index and hash type, every cell
+    that existed before the call is unchanged - trivially, but as a statement about a machine on which the legacy
+    function with a shallow clone does change cells (C03_shallow_clone_would_write) - and what it returns is the
+    value-level model's answer on the transaction the pointer denotes. *)
+Theorem C02_forkid_never_writes_callers_cells : forall h p i ht h' r,
+  forkid_preimage_heap h p i ht = (h', r) ->
+  forall a, (a < heap_size h)%nat -> cell h' a = cell h a.
+Proof. exact forkid_frame. Qed.
+Print Assumptions C02_forkid_never_writes_callers_cells.
+Theorem C02_forkid_heap_model_refines_value_model : forall h p t i ht, abs_tx h p = Some t ->
+  snd (forkid_preimage_heap h p i ht) = fst (calc_input_preimage t i ht).
+Proof. exact forkid_heap_refines. Qed.
+Print Assumptions C02_forkid_heap_model_refines_value_model.
 
 (** one statement of totality: on every transaction, every uint32 index and every 8-bit type the function answers
     with a preimage or with one of the three errors - never with the panic outcomes of the model (index out of
